@@ -30,7 +30,8 @@ NAMES = {
     1301: "two retry loops for one tower (duplicate sends of one locator within 200 ms)",
     1302: "requests flood a failing tower (no back-off)",
     1303: "pending data not delivered / tower not shown reachable within max-retry + auto-retry + slack after recovery "
-          "(also: after an accepted retrytower / a new revocation for a healthy tower left in `subscription error`)",
+          "(also: after an accepted retrytower / a new revocation for a healthy tower left in `subscription error`; "
+          "detail 3: registertower alone turned a tower with undelivered data - subscription error / unreachable / misbehaving - into `reachable`)",
     1304: "a tower that keeps failing (down, garbage, or subscription error with a transiently failing renewal) is not shown "
           "unreachable after max-retry + slack",
     1305: "retrytower accepted / refused against the documented states",
